@@ -67,6 +67,41 @@ Section S.
       destruct (IH _ _ eq_refl). split; [assumption|right; assumption].
   Qed.
 
+  Lemma find_remove_first p l x l' : find_remove p l = Some (x, l') ->
+    exists ahead rest, l = ahead ++ x :: rest /\ l' = ahead ++ rest
+                       /\ p x = true /\ forall y, In y ahead -> p y = false.
+  Proof.
+    revert x l'; induction l as [|y l IH]; intros x l' H; cbn in H; [discriminate|].
+    destruct (p y) eqn:E.
+    - inversion H; subst. exists [], l'. repeat split; [assumption|intros z []].
+    - destruct (find_remove p l) as [[z r]|]; [|discriminate]. inversion H; subst.
+      destruct (IH _ _ eq_refl) as (a & b & -> & -> & Px & Pa).
+      exists (y :: a), b. repeat split; [assumption|].
+      intros w [<-|Hw]; [assumption|apply Pa; assumption].
+  Qed.
+
+  (* FIFO admission: the object a queue starts is the first ready one of the waiting list; every
+     object ahead of it (added or re-queued earlier) is not ready for this queue now, and the
+     waiting list keeps its order *)
+  Lemma fifo_admission prio now s id s' :
+    get_next_file_transfer prio now s = ROk _ (Some id, s') ->
+    exists ahead rest,
+      queue s = ahead ++ id :: rest /\ queue s' = ahead ++ rest
+      /\ should_transfer_now (obj s id) prio (full_fdt s) now = true
+      /\ forall y, In y ahead -> should_transfer_now (obj s y) prio (full_fdt s) now = false.
+  Proof.
+    unfold SenderCtl.get_next_file_transfer. intros H.
+    destruct (find_remove _ (queue s)) as [[x q']|] eqn:E; [|inversion H].
+    apply find_remove_first in E. destruct E as (a & b & Ea & Eb & Px & Pa).
+    destruct (transfer_started divf x now _) as [s2|] eqn:T; [|discriminate].
+    inversion H; subst id. exists a, b. split; [assumption|]. split; [|split; assumption].
+    assert (Q2 : queue s2 = q').
+    { unfold SenderCtl.transfer_started in T.
+      destruct (t_init _ _ _ _); [|discriminate]. inversion T; subst s2. reflexivity. }
+    destruct (full_fdt s2); subst s'; [congruence|].
+    unfold SenderCtl.publish. destruct (fdt_ok (fdtid s2)); cbn; congruence.
+  Qed.
+
   Lemma unpublished_never_started prio now s id s' :
     get_next_file_transfer prio now s = ROk _ (Some id, s') ->
     In id (queue s)
